@@ -2,7 +2,7 @@
 import random, time, os, multiprocessing as mp
 from harness import tlc, hostrun
 
-OWN = {"C10": {"onlyappend", "complete", "rewritten", "toldwhy", "allowed", "notraceback", "readonly"},
+OWN = {"C10": {"onlyappend", "complete", "rewritten", "toldwhy", "allowed", "notraceback", "readonly", "wrote"},
        "C09": {"preserves", "happens", "sniff", "allowed", "listed"},
        "C15": {"capacity", "construct", "oneslot"},
        "C08": {"complete"},          # every image written through the host path is a complete, consistent image of the requested kind (DiskBytes!FsckOK for disks)
